@@ -51,7 +51,7 @@ SPEC_BUILTINS = {
     "suffixof", "contains", "strlen", "int_str", "str_to_int", "truthy", "py_eq", "py_str",
     "clsid", "clsof", "isinst", "uf", "exact_class", "qn_str", "qn_uri", "map_dom_eq",
     "const_set", "const_map_keys", "table_get", "table_has", "field_array", "is_other",
-    "seq_len", "seq_nth", "seq_empty", "seq_unit", "seq_concat", "flt_of_int", "same", "hash_str", "tbl", "canon_in", "vs_has", "vs_n", "vs_in", "vs_wf", "vs_first", "vs_rep", "ck", "qm_has", "qm_get", "qm_key", "pair", "hash_of", "vs_add", "vs_empty", "seq_has", "attr_set", "canon_set", "rkey", "rec_keys", "set_has", "uri_in", "recs_with_id", "recs_of_class", "allocated", "table_key", "os_has", "os_n", "os_rep", "entry",
+    "seq_len", "seq_nth", "seq_empty", "seq_unit", "seq_concat", "flt_of_int", "same", "hash_str", "tbl", "canon_in", "vs_has", "vs_n", "vs_in", "vs_wf", "vs_first", "vs_rep", "ck", "qm_has", "qm_get", "qm_key", "pair", "hash_of", "vs_add", "vs_empty", "seq_has", "attr_set", "canon_set", "rkey", "rec_keys", "set_has", "uri_in", "recs_with_id", "recs_of_class", "allocated", "table_key", "seq_member_index_lemma", "is_formal", "os_has", "os_n", "os_rep", "entry",
 }
 
 
@@ -189,6 +189,8 @@ class Exec(Sem):
 
     # ================================================================ spec evaluation
     def spec_eval(self, e, st):
+        if st.path:
+            self.cx.current_path = "".join(st.path)
         out = []
         st2 = st if st.spec else st.copy(spec=True)
         self.ev(e, st2, lambda s, v: out.append(v), None)
@@ -202,6 +204,8 @@ class Exec(Sem):
 
     # ================================================================ expressions
     def ev(self, e, st, k, ctl):
+        if st.path:
+            self.cx.current_path = "".join(st.path)
         m = getattr(self, "ev_" + type(e).__name__, None)
         if m is None:
             raise Unsupported("expression " + type(e).__name__, e)
@@ -344,6 +348,8 @@ class Exec(Sem):
                 return k(*self.ns_cache(o, st))
             if attr in vf:
                 pat, fty = vf[attr]
+                if ty.kind == "QN" and attr == "_uri":
+                    return k(st, SV(self.qn_uri_term(o.t), fty))
                 return k(st, SV(pat % o.t, fty))
             ci = self.repo.classes[self.VALUE_CLASS_OF[ty.kind]]
             fi = ci.lookup(attr)
@@ -766,6 +772,8 @@ class Exec(Sem):
     def ev_Call(self, e, st, k, ctl):
         if st.spec and isinstance(e.func, ast.Name) and e.func.id in ("old", "forall", "exists"):
             return self.spec_form(e, st, k, ctl)
+        if st.spec and isinstance(e.func, ast.Name) and e.func.id in ("exists_in", "forall_in"):
+            return self.spec_form_in(e, st, k, ctl)
         if any(isinstance(a, ast.Starred) for a in e.args) or any(kw.arg is None for kw in e.keywords):
             return self.bi.star_call(e, st, k, ctl)
 
@@ -844,6 +852,29 @@ class Exec(Sem):
             return k(st, SV(body, T.BOOL))
         return k(st, SV("(%s (%s) %s)" % (q, " ".join(binders), body), T.BOOL))
 
+    def spec_form_in(self, e, st, k, ctl):
+        """exists_in(seq, lambda p: body) / forall_in(seq, lambda p: body): bounded quantifier over the members
+        of a list; a literal list is expanded to a finite disjunction / conjunction"""
+        from .builtins import _units_of
+        seq = self.spec_eval(e.args[0], st)
+        lam = e.args[1]
+        et = seq.ty.args[0]
+        pname = lam.args.args[0].arg
+        is_ex = e.func.id == "exists_in"
+        units = _units_of(seq.t)
+        if units is not None:
+            parts = [self.spec_bool(lam.body, st.bind(pname, SV(u, et))) for u in units]
+            return k(st, SV(OR(*parts) if is_ex else AND(*parts), T.BOOL))
+        S = self.cx.sorts
+        bn = "%s_%d" % (pname, next(self.cx.counter))
+        s2 = st.bind(pname, SV(bn, et))
+        s2.bound = st.bound + (pname,)
+        body = self.spec_bool(lam.body, s2)
+        mem = "(seq.contains %s (seq.unit %s))" % (seq.t, bn)
+        if is_ex:
+            return k(st, SV("(exists ((%s %s)) (and %s %s))" % (bn, S.sort(et), mem, body), T.BOOL))
+        return k(st, SV("(forall ((%s %s)) (=> %s %s))" % (bn, S.sort(et), mem, body), T.BOOL))
+
     def call(self, f, args, kwargs, st, k, ctl, node):
         if isinstance(f, PyV):
             kind = f.kind
@@ -888,6 +919,8 @@ class Exec(Sem):
             raise Unsupported("specification function %s called from code" % sf.name, node)
         if len(args) != len(sf.params):
             raise Unsupported("spec %s: arity" % sf.name, node)
+        if sf.opaque:
+            return k(st, self.opaque_app(sf, args, st))
         env = {}
         for (pn, pt), a in zip(sf.params, args):
             env[pn] = self.coerce(a, pt, "argument %s of spec %s" % (pn, sf.name)) if isinstance(a, SV) else a
@@ -902,6 +935,40 @@ class Exec(Sem):
                 if len(cj) > 60:
                     self.cx.term_tags.setdefault(cj, sf.name)
         return k(st, v)
+
+    def opaque_app(self, sf, args, st):
+        """application of an opaque specification function: an uninterpreted symbol; its defining axiom is
+        stated only in units that reveal(...) it"""
+        cx = self.cx
+        S = cx.sorts
+        avs = [self.coerce(a, pt, "argument of " + sf.name) for (pn, pt), a in zip(sf.params, args)]
+        fn = "sp_" + sf.name
+        if fn not in cx.funs_known:
+            cx.funs_known.add(fn)
+            cx.funs.append("(declare-fun %s (%s) %s)" % (fn, " ".join(S.sort(pt) for _, pt in sf.params), S.sort(sf.ret)))
+            if sf.name in getattr(self, "reveals", ()):
+                env = {}
+                binders = []
+                for pn, pt in sf.params:
+                    bn = "%s_%d" % (pn, next(cx.counter))
+                    env[pn] = SV(bn, pt)
+                    binders.append("(%s %s)" % (bn, S.sort(pt)))
+                s2 = State(env, {}, spec=True)
+                s2.bound = tuple(pn for pn, _ in sf.params)
+                body = self.spec_body(sf.node.body, s2, sf)
+                body = self.coerce(body, sf.ret, "body of " + sf.name)
+                cx.funs.append("(assert (forall (%s) (= (%s %s) %s)))" % (
+                    " ".join(binders), fn, " ".join(env[pn].t for pn, _ in sf.params), body.t))
+        app = "(%s %s)" % (fn, " ".join(a.t for a in avs))
+        if sf.name in getattr(self, "reveals", ()) and not st.bound:
+            # ground occurrence in a unit that may use the definition: state the instance directly
+            done = cx.__dict__.setdefault("_ground_defs", set())
+            if app not in done:
+                done.add(app)
+                env = {pn: a for (pn, pt), a in zip(sf.params, avs)}
+                body = self.coerce(self.spec_body(sf.node.body, State(env, {}, spec=True), sf), sf.ret, "body of " + sf.name)
+                cx.axioms.append("(= %s %s)" % (app, body.t))
+        return SV(app, sf.ret)
 
     def spec_body(self, stmts, st, sf):
         """pure statements: assignments, if/return chains -> one value (ite)"""
@@ -1004,9 +1071,21 @@ class Exec(Sem):
             return k(st)
         s0 = stmts[0]
         rest = stmts[1:]
+        if st.path or self.cx.current_path is None:
+            self.cx.current_path = "".join(st.path)
         m = getattr(self, "ex_" + type(s0).__name__, None)
         if m is None:
             raise Unsupported("statement " + type(s0).__name__, s0)
+        c = getattr(self, "current_contract", None)
+        if c is not None and c.asserts and not st.spec and st.fn is not None and not isinstance(s0, (ast.If, ast.For, ast.While, ast.Try)):
+            key = " ".join(ast.unparse(s0).split())
+            if key in c.asserts and self.repo.func(c.target.split("#")[0]) is st.fn:
+                for name, e in c.asserts[key]:
+                    ps = st.copy(spec=True, old=self.pre_state)
+                    g = self.spec_bool(e, ps)
+                    self.cx.oblige("%s/assert:%s@%s" % (".".join(c.target.split(".")[2:]), name, s0.lineno), st, g,
+                                   {"kind": "assertion", "function": c.target})
+                    st = st.assume(g)
         return m(s0, st, lambda s: self.ex(rest, s, k, ctl), ctl)
 
     def ex_Pass(self, s, st, k, ctl):
